@@ -68,8 +68,17 @@ TEMPLATES['crlf'] = (TEMPLATES['multiline'][0].replace('\n', '\r\n') + '\r\n<i t
 TEMPLATES['cr'] = (TEMPLATES['sites5'][0].replace('\n', '\r') + '\r\r<b>${L(6)}</b>', 7)
 TEMPLATES['crlf-xml'] = ('<?xml version="1.0"?>\r\n' + TEMPLATES['sites5'][0].replace('\n', '\r\n'), 6)
 
+# the same composite expression text twice: the first occurrence is not reached, the second one fails
+TEMPLATES['same-text-twice'] = (
+    '<p tal:condition="False">${structure: L(0)}<i tal:content="not: L(1)"/></p>\n<p>${structure: L(0)}</p>\n'
+    '<b tal:condition="not: L(1)">x</b>\n<q tal:content="string:a ${L(2)}" tal:condition="False"/>'
+    '<q tal:content="string:a ${L(2)}"/>\n<u tal:content="nope | python: L(3)" tal:condition="False"/>'
+    '<u tal:content="nope | python: L(3)"/>', 4)
+NTH = {'same-text-twice': 1}      # which occurrence of the expression text is the one that is evaluated
+
 # the failing *expression* is the whole expression text the evaluation point belongs to
-EXPR_OVERRIDE = {'guards': {1: 'range(L(1))', 2: 'not L(2)'}, 'string-structure': {2: 'python: L(2)'}}
+EXPR_OVERRIDE = {'guards': {1: 'range(L(1))', 2: 'not L(2)'}, 'string-structure': {2: 'python: L(2)'},
+                 'same-text-twice': {3: 'python: L(3)'}}
 
 # templates whose expected frame chain has more than one record or must not grow:
 # name -> (text, n leaves, {leaf: [expression texts innermost first]})
@@ -168,8 +177,10 @@ def _mutate(name):
         raise KeyError(name)
 
 
-def locate(text, needle):
-    pos = text.index(needle)
+def locate(text, needle, nth=0):
+    pos = -1
+    for _ in range(nth + 1):
+        pos = text.index(needle, pos + 1)
     before = text[:pos]
     line = before.count('\n') + 1
     col = pos - (before.rfind('\n') + 1)
@@ -187,7 +198,8 @@ def prepare(cfg):
         ov = EXPR_OVERRIDE.get(name, {})
         # outside XML mode CR and CRLF are read as line breaks (documented), positions refer to that reading
         seen = text if text.startswith('<?xml') else text.replace('\r\n', '\n').replace('\r', '\n')
-        STATE['expect'] = {k: [('<string>', ov.get(k, 'L(%d)' % k)) + locate(seen, ov.get(k, 'L(%d)' % k))]
+        nth = NTH.get(name, 0)
+        STATE['expect'] = {k: [('<string>', ov.get(k, 'L(%d)' % k)) + locate(seen, ov.get(k, 'L(%d)' % k), nth)]
                            for k in range(n)}
         if name == 'multiline':
             pass
